@@ -132,6 +132,8 @@ def _l12_l13(run: Run) -> None:
                 return True
             if isinstance(e, ast.BoolOp) and isinstance(e.op, ast.Or):
                 return any(from_super(v) for v in e.values)
+            if isinstance(e, ast.IfExp):
+                return from_super(e.body) and from_super(e.orelse)
             return False
         for r in [x for x in ast.walk(fn) if isinstance(x, ast.Return)]:
             if r.value is None or not from_super(r.value):
